@@ -68,6 +68,7 @@ pub mod rows_c {
         }
     }
     include!("/verif/kani/gen/kx_c25_compare_rows.rs");
+    include!("/verif/kani/gen/kx_c25_compare_key.rs");
 
     fn any_dir() -> SortDirection {
         if kani::any() { SortDirection::Asc } else { SortDirection::Desc }
@@ -112,6 +113,20 @@ pub mod rows_c {
             k += 1;
         }
         assert!(got == want);
+    }
+    /// the loop body for ONE key (loop-free, full domain: complete): a non-Equal return is that key's
+    /// run order; falling through happens exactly when the two cells tie under it
+    #[kani::proof]
+    fn c25_kx_compare_key_is_key_order() {
+        let a = KBatch { cols: [[any_cell(), any_cell()], [any_cell(), any_cell()]] };
+        let b = KBatch { cols: [[any_cell(), any_cell()], [any_cell(), any_cell()]] };
+        let col: usize = kani::any();
+        kani::assume(col < 2);
+        let key = KSortExpr { expr: KExpr { col }, direction: any_dir(), nulls: any_nulls() };
+        let (ra, rb): (usize, usize) = (kani::any(), kani::any());
+        kani::assume(ra < 2 && rb < 2);
+        let got = kx_c25_compare_key(&a, ra, &b, rb, &key);
+        assert!(got == key_order(a.cols[col][ra], b.cols[col][rb], &key.direction, &key.nulls));
     }
     /// every combination of key directions and NULL placements, 1 or 2 keys, NULL and non-NULL cells
     #[kani::proof]
